@@ -10,7 +10,7 @@ DirParts == <<" 2023-05 ", "sub dir\\notes", "üni nfd", "x.y">>
 \* the last two names and the first directory begin / end with a blank (legal; must be stored and relocated verbatim);
 \* the 7th and 8th names are NOT stable under unicode normalisation (decomposed accents e + U+0301, OHM SIGN U+2126)
 Names == <<"a.wav", "with space.wav", "üñí ©.wav", "dots.in.name.wav", "..hidden.wav", "日本.WAV", "été nfd.wav", "Ωhm.wav", " lead.wav", "take 7 ",
-          "rec\\01.wav">>       \* a POSIX file name containing a backslash (one component, stored and relocated verbatim)
+          "rec\\01.wav", "rec%20one.wav">>       \* a POSIX file name containing a backslash (one component, stored and relocated verbatim); a name containing a literal %XX sequence
 Sw0 == {"two_clips", "se_other_rec", "has_seq", "rec_owner"}
 Init == /\ ct \in Range(CTypes) /\ depth \in 0..MaxDepth /\ name \in DOMAIN Names
         \* fspath: the directory given as an os.PathLike object that is neither str nor pathlib.Path
